@@ -11,6 +11,7 @@ package main
 
 import (
 	"bytes"
+	"context"
 	"crypto/ecdsa"
 	"encoding/json"
 	"errors"
@@ -18,6 +19,7 @@ import (
 	"html"
 	"html/template"
 	"io"
+	"log/slog"
 	"net/http"
 	"net/http/httptest"
 	"net/netip"
@@ -672,6 +674,111 @@ func genRT(r drv.Rand) string {
 
 // ---------------------------------------------------------------- direct calls
 
+// wrapErr: how an error travels from where it is made to the error writer. 1 %w once, 2 %w twice,
+// 3 op.StatusError, 4 %w around a StatusError, 5 errors.Join with context, 6 (and 0) bare.
+func wrapErr(err error, mode int) error {
+	if err == nil {
+		return nil
+	}
+	switch mode {
+	case 1:
+		return fmt.Errorf("validate auth request: %w", err)
+	case 2:
+		return fmt.Errorf("authorize: %w", fmt.Errorf("validate: %w", err))
+	case 3:
+		return op.NewStatusError(err, http.StatusBadRequest)
+	case 4:
+		return fmt.Errorf("authorize: %w", op.NewStatusError(err, http.StatusTeapot))
+	case 5:
+		return errors.Join(errors.New("while validating the authorization request"), err)
+	}
+	return err
+}
+
+var wrapNames = []string{"default", "w1", "w2", "status", "w-status", "join", "bare"}
+
+// wrapAuthorizer: an authorizer with its own validation (optional interface op.AuthorizeValidator) that
+// delegates to the library's and hands the error on with context added.
+// With a validator op.Authorize never learns the client, and RedirectToLogin(id, nil, ...) panics once the
+// validation SUCCEEDS (finding, see notes/C03.md). The driver therefore uses the validator only for requests
+// whose validation fails: a first pass into a throw-away recorder finds out (on success the validator
+// answers errValidated, so nothing is stored), then the request is served for real - by the validator
+// path when the validation failed, by the provider's own handler otherwise.
+type wrapAuthorizer struct {
+	op.OpenIDProvider
+	mode  int
+	valid *bool
+}
+
+var errValidated = errors.New("driver: validation succeeded")
+
+func (a wrapAuthorizer) ValidateAuthRequest(ctx context.Context, req *oidc.AuthRequest, st op.Storage, v *op.IDTokenHintVerifier) (string, error) {
+	id, err := op.ValidateAuthRequest(ctx, req, st, v)
+	if err == nil {
+		*a.valid = true
+		return "", errValidated
+	}
+	return id, wrapErr(err, a.mode)
+}
+
+var _ op.AuthorizeValidator = wrapAuthorizer{}
+
+var ewFixture *opfix.Fixture
+var quietLog = slog.New(slog.NewTextHandler(io.Discard, nil))
+
+// errorWriterCase: the validation error of (client, uri, response type), wrapped, handed to the two error
+// writers with the unverified URI in the request, as a custom validator / Server would. A redirect is a
+// "redirectable error" (OValidateOther): acceptable only for a registered URI.
+func errorWriterCase(r drv.Rand, w *emit.Writer, c *refstore.Client, u, kind, rt string, mode, via int, extra ...string) {
+	if ewFixture == nil {
+		f, err := opfix.New(refstore.New(opfix.DefaultSigning()), opfix.Options{})
+		if err != nil {
+			fmt.Fprintln(os.Stderr, "fixture:", err)
+			os.Exit(2)
+		}
+		ewFixture = f
+	}
+	var err error
+	redirected := false
+	p := drv.Catch(func() {
+		err = op.ValidateAuthReqRedirectURI(c.View(), u, oidc.ResponseType(rt))
+		if err == nil {
+			return
+		}
+		authReq := &oidc.AuthRequest{ClientID: c.ID, RedirectURI: u, ResponseType: oidc.ResponseType(rt), State: "st-1", Scopes: []string{"openid"}}
+		if via == 0 {
+			rec := httptest.NewRecorder()
+			op.AuthRequestError(rec, httptest.NewRequest(http.MethodGet, "https://op.example.com/authorize", nil), authReq, wrapErr(err, mode), ewFixture.Provider)
+			redirected = rec.Code >= 300 && rec.Code < 400 || rec.Code == http.StatusOK
+		} else {
+			red, _ := op.TryErrorRedirect(context.Background(), authReq, wrapErr(err, mode), ewFixture.Provider.Encoder(), quietLog)
+			redirected = red != nil
+		}
+	})
+	obs := "OValidateOther"
+	switch {
+	case p != "":
+		obs = "OCrash"
+	case err == nil:
+		obs = emit.Ctor("OValidate", "VOk")
+	case !redirected:
+		oe := oidc.DefaultToServerError(err, "")
+		if oe.IsRedirectDisabled() && oe.ErrorType == oidc.InvalidRequest {
+			obs = emit.Ctor("OValidate", "VBad")
+		} else if oe.IsRedirectDisabled() && oe.ErrorType == oidc.ServerError {
+			obs = emit.Ctor("OValidate", "VGlobErr")
+		}
+	}
+	in := emit.Ctor("IValidate", clientTerm(c), emit.Str(u), emit.Str(rt), tables([]*refstore.Client{c}, []string{u}))
+	tags := append([]string{"kind=validate", "via=" + []string{"AuthRequestError", "TryErrorRedirect"}[via], "wrap=" + wrapNames[mode], "app=" + appNames[c.App], "mut=" + kind,
+		fmt.Sprintf("globs=%v", c.UseGlobs), fmt.Sprintf("dev=%v", c.Dev)}, extra...)
+	if hasBadGlob(c) {
+		tags = append(tags, "badglob=1")
+	}
+	w.Add(emit.Case{Input: in, Observed: obs, Tags: tags,
+		Human: map[string]any{"client": clientHuman(c), "uri": u, "response_type": rt, "err": fmt.Sprint(err), "wrap": wrapNames[mode], "redirected": redirected}})
+}
+
 func validateCase(r drv.Rand, w *emit.Writer, c *refstore.Client, u, kind, rt string, extra ...string) {
 	var err error
 	p := drv.Catch(func() { err = op.ValidateAuthReqRedirectURI(c.View(), u, oidc.ResponseType(rt)) })
@@ -1114,6 +1221,8 @@ type session struct {
 	ids                 []string
 	outs, opTerms, uris []string
 	human               []map[string]any
+	vwrap               int          // Provider router: 0 = the library's own validation; else an op.AuthorizeValidator that wraps its errors (wrapErr mode)
+	wrapHandler         http.Handler // /authorize of the Provider router with that validator
 }
 
 // signHint: an ID token really signed with the provider's key for issuer iss.
@@ -1136,6 +1245,9 @@ func signHint(iss string) string {
 
 // dynamicIssuer sessions derive the issuer from Request.Host (op.IssuerFromHost)
 var dynamicIssuer bool
+
+// sessionWrap: the validator wrap mode of the next session (0 = none)
+var sessionWrap int
 
 // sessionNotFound: how the storage of the next session reports an unknown client
 var sessionNotFound errKind
@@ -1171,12 +1283,32 @@ func newSession(reqobj bool, clients []*refstore.Client) *session {
 		os.Exit(2)
 	}
 	termClients = clients
-	return &session{reqobj: reqobj, clients: clients, store: store, f: f, fail: fail, notfound: nf}
+	s := &session{reqobj: reqobj, clients: clients, store: store, f: f, fail: fail, notfound: nf, vwrap: sessionWrap}
+	if s.vwrap != 0 {
+		mode, def := s.vwrap, f.Handlers[opfix.Provider]
+		s.wrapHandler = op.NewIssuerInterceptor(f.Provider.IssuerFromRequest).HandlerFunc(func(w http.ResponseWriter, r *http.Request) {
+			r.ParseForm() // parsed once here: both passes work on copies of r and share Form / PostForm
+			valid := false
+			wa := wrapAuthorizer{OpenIDProvider: f.Provider, mode: mode, valid: &valid}
+			op.Authorize(httptest.NewRecorder(), r, wa)
+			if valid {
+				def.ServeHTTP(w, r)
+				return
+			}
+			op.Authorize(w, r, wa)
+		})
+	}
+	return s
 }
 
 // get sends one GET to the fixture, with the write fault of h if it has one.
 func (s *session) get(h hop, path string, q url.Values) *opfix.Resp {
-	if h.cut == 0 && h.q.post == 0 {
+	hd := s.f.Handlers[h.router]
+	custom := s.wrapHandler != nil && h.router == opfix.Provider && path == "/authorize"
+	if custom {
+		hd = s.wrapHandler
+	}
+	if h.cut == 0 && h.q.post == 0 && !custom {
 		return s.f.GetAt(h.router, hostOf(h.q), "", path, q)
 	}
 	target := "https://" + hostOf(h.q) + path
@@ -1205,9 +1337,9 @@ func (s *session) get(h hop, path string, q url.Values) *opfix.Resp {
 		req.Header.Set("Content-Type", "application/x-www-form-urlencoded")
 	}
 	if h.cut == 0 {
-		return opfix.Do(s.f.Handlers[h.router], req)
+		return opfix.Do(hd, req)
 	}
-	return doCut(s.f.Handlers[h.router], req, h.cut == 2, h.cutN)
+	return doCut(hd, req, h.cut == 2, h.cutN)
 }
 
 func (s *session) step(h hop) {
@@ -1326,8 +1458,13 @@ func genHistory(r drv.Rand, w *emit.Writer) {
 	dyn := dynamicIssuer
 	sessionNotFound = genErrKind(r)
 	nfTag := sessionNotFound.tag()
+	if r.Chance(1, 3) {
+		sessionWrap = 1 + r.IntN(6)
+	}
+	wrapTag := "vwrap=" + wrapNames[sessionWrap]
 	s := newSession(reqobj, clients)
 	dynamicIssuer = false
+	sessionWrap = 0
 	sessionNotFound = errKind{}
 	do := func(h hop) { ops = append(ops, h); s.step(h) }
 	nflows := 1 + r.IntN(2)
@@ -1470,7 +1607,7 @@ func genHistory(r drv.Rand, w *emit.Writer) {
 			do(hop{kind: 2, router: pickRouter(r), k: r.IntN(len(s.ids) + 1)})
 		}
 	}
-	tags := []string{"kind=history", fmt.Sprintf("clients=%d", nc), fmt.Sprintf("reqobj=%v", reqobj), fmt.Sprintf("dynissuer=%v", dyn), "notfound=" + nfTag}
+	tags := []string{"kind=history", fmt.Sprintf("clients=%d", nc), fmt.Sprintf("reqobj=%v", reqobj), fmt.Sprintf("dynissuer=%v", dyn), "notfound=" + nfTag, wrapTag}
 	seen := map[string]bool{}
 	for _, m := range muts {
 		t := m
@@ -1615,8 +1752,13 @@ func genSequence(r drv.Rand, w *emit.Writer) {
 	dyn := dynamicIssuer
 	sessionNotFound = genErrKind(r)
 	nfTag := sessionNotFound.tag()
+	if r.Chance(1, 3) {
+		sessionWrap = 1 + r.IntN(6)
+	}
+	wrapTag := "vwrap=" + wrapNames[sessionWrap]
 	s := newSession(reqobj, clients)
 	dynamicIssuer = false
+	sessionWrap = 0
 	sessionNotFound = errKind{}
 	var ops []hop
 	do := func(h hop) { ops = append(ops, h); s.step(h) }
@@ -1733,7 +1875,7 @@ func genSequence(r drv.Rand, w *emit.Writer) {
 			do(h2)
 		}
 	}
-	tags := []string{"kind=sequence", fmt.Sprintf("clients=%d", nc), fmt.Sprintf("reqobj=%v", reqobj), fmt.Sprintf("dynissuer=%v", dyn), "notfound=" + nfTag}
+	tags := []string{"kind=sequence", fmt.Sprintf("clients=%d", nc), fmt.Sprintf("reqobj=%v", reqobj), fmt.Sprintf("dynissuer=%v", dyn), "notfound=" + nfTag, wrapTag}
 	for _, m := range []map[string]bool{cutTags, modeTags} {
 		var ks []string
 		for k := range m {
@@ -1825,6 +1967,37 @@ func directedPrivateUse(r drv.Rand, w *emit.Writer) {
 	}
 }
 
+// directedWrap: unregistered URIs, an unknown client and a registered URI with a later error, for every
+// way the validation error can reach the error writer: through an AuthorizeValidator on the Provider
+// router, and handed directly to AuthRequestError / TryErrorRedirect.
+func directedWrap(r drv.Rand, w *emit.Writer) {
+	web := &refstore.Client{ID: "c0", App: op.ApplicationTypeWeb, RespTypes: allRT, Redirects: []string{"https://app.example.com/cb"}, ATType: op.AccessTokenTypeBearer}
+	glb := &refstore.Client{ID: "c0", App: op.ApplicationTypeWeb, RespTypes: allRT, Redirects: []string{"https://app.example.com/cb"},
+		UseGlobs: true, RedirectGlobs: []string{"https://["}, ATType: op.AccessTokenTypeBearer}
+	for mode := 1; mode <= 6; mode++ {
+		for _, c := range []*refstore.Client{web, glb} {
+			for _, rt := range []string{"code", "id_token token"} {
+				ops := []hop{
+					{kind: 0, router: opfix.Provider, q: areq{client: "c0", uri: "https://evil.example/cb", rt: rt}},
+					{kind: 0, router: opfix.Provider, q: areq{client: "c0", uri: "https://app.example.com/cb/", rt: rt, mode: "fragment"}},
+					{kind: 0, router: opfix.Provider, q: areq{client: "nobody", uri: "https://evil.example/cb", rt: rt}},
+					{kind: 0, router: opfix.Provider, q: areq{client: "c0", uri: "https://app.example.com/cb", rt: rt, noscope: true}},
+					{kind: 0, router: opfix.Legacy, q: areq{client: "c0", uri: "https://evil.example/cb", rt: rt}},
+					{kind: 0, router: opfix.Provider, q: areq{client: "c0", uri: "https://app.example.com/cb", rt: rt}},
+					{kind: 1, k: 0}, {kind: 2, router: opfix.Provider, k: 0}}
+				sessionWrap = mode
+				runHistory(w, false, []*refstore.Client{c}, ops, []string{"kind=history", "directed=wrap", "vwrap=" + wrapNames[mode]})
+				sessionWrap = 0
+			}
+			for via := 0; via < 2; via++ {
+				for _, u := range []string{"https://evil.example/cb", "http://app.example.com/cb", "https://app.example.com/cb", ""} {
+					errorWriterCase(r, w, c, u, "foreign", "code", mode, via, "directed=wrap")
+				}
+			}
+		}
+	}
+}
+
 // directed cases that must stay in every run (former defect F14 and friends)
 func directed(r drv.Rand, w *emit.Writer) {
 	bad := &refstore.Client{ID: "c0", App: op.ApplicationTypeWeb, RespTypes: allRT, Redirects: []string{"https://app.example.com/cb"},
@@ -1893,6 +2066,7 @@ func main() {
 	directedCut(w)
 	directedDup(w)
 	directedPrivateUse(r, w)
+	directedWrap(r, w)
 	nv := cfg.Count(900, 14000)
 	nh := cfg.Count(700, 10000)
 	ns := cfg.Count(200, 3000)
@@ -1901,7 +2075,11 @@ func main() {
 	for i := 0; i < nv; i++ {
 		c := genClient(r, "c0")
 		u, kind := genURI(r, c)
-		validateCase(r, w, c, u, kind, genRT(r))
+		if i%4 == 3 {
+			errorWriterCase(r, w, c, u, kind, genRT(r), 1+r.IntN(6), r.IntN(2))
+		} else {
+			validateCase(r, w, c, u, kind, genRT(r))
+		}
 		for j := i * nh / nv; j < (i+1)*nh/nv; j++ {
 			genHistory(r, w)
 		}
